@@ -544,6 +544,9 @@ int main(int argc, char **argv)
 {
   if (argc < 3) return 2;
   iora::core::Logger::setLevel(iora::core::Logger::Level::Fatal);
+  // the store's background flush thread (every 2 s by default) must not flush a dirty store between two scripted
+  // operations: the scripted flush would then find nothing to do and the effects would differ from the model's
+  JsonFileStore::flushInterval() = std::chrono::milliseconds(24 * 3600 * 1000);
   std::ifstream in(argv[1]);
   std::ofstream out(argv[2]);
   std::string line;
